@@ -346,3 +346,22 @@ def scaling_chains(total):
     n = max(1, room // 8)
     yield 'notify-distinct-chain', NOTIFY, b''.join(gp(NOTIFY if i < n - 1 else 0, struct.pack('>BBH', 0, 0, 0x4000 + (i & 0x3FFF)))
                                                     for i in range(n))
+
+
+def text_shapes():
+    """label, payload type, payload chain: textual identities (ID_FQDN, ID_RFC822_ADDR) and vendor IDs whose text is a
+    long run of one class of characters, optionally broken by one octet of another class - the shapes on which anything
+    that matches, splits or validates text per character (instead of once) shows more than linear cost"""
+    runs = {'letters': b'a', 'digits': b'7', 'dots': b'.', 'label-dot': b'a.', 'hyphens': b'-', 'ats': b'@', 'blanks': b' ',
+            'high': b'\xe9', 'nul': b'\0'}
+    ends = {'none': b'', 'blank': b' ', 'slash': b'/', 'high': b'\xff', 'dot': b'.', 'at': b'@', 'nul': b'\0', 'letter': b'z'}
+    for n in (30, 63, 255, 2000):
+        for rname, unit in runs.items():
+            run = (unit * n)[:n]
+            for ename, end in ends.items():
+                for pname, prefix in (('', b''), ('local@', b'x@')):
+                    text = prefix + run + end
+                    for idt in (2, 3):
+                        yield ('id%d:%s%s*%d+%s' % (idt, pname, rname, n, ename), IDI, gp(0, bytes([idt, 0, 0, 0]) + text))
+                    if not prefix:
+                        yield ('vendor:%s*%d+%s' % (rname, n, ename), VENDOR, gp(0, text))
